@@ -46,10 +46,15 @@ def strip_not(n):
     """returns (inner, negated)"""
     neg = False
     n = skip(n)
-    while n is not None and n["k"] == "un" and n["op"] == "!":
-        neg = not neg
-        n = skip(n["c"][0])
-    # operator! on objects is not used for predicates here
+    while n is not None:
+        if n["k"] == "un" and n["op"] == "!":
+            neg = not neg
+            n = skip(n["c"][0])
+        elif n["k"] == "call" and n.get("ck") == "op" and n.get("op") == "!" and len(n.get("c", ())) == 1:
+            neg = not neg       # e.g. !stream (std::basic_ios::operator!)
+            n = skip(n["c"][0])
+        else:
+            break
     return n, neg
 
 
